@@ -1,5 +1,6 @@
 """R-UNTRUSTED: every sink fed by untrusted data is guarded, or individually reviewed."""
 from ..taint import Taint
+from ..facts import callee_q
 from ..callgraph import CallGraph
 
 ENTRY_SUFFIX = (
@@ -83,6 +84,23 @@ def run(facts, cg, reviewed=None):
             findings.append({'rule': 'R-UNTRUSTED', 'key': 'R-UNTRUSTED|bitar::archive::Archive::try_init|precondition:end-offset-validated', 'function': 'bitar::archive::Archive::try_init',
                              'what': 'the reviewed sinks `offset + size` (ChunkOffset::end, adjacent_reads) rely on try_init rejecting descriptors whose '
                                      'absolute offset plus stored size (archive_size) overflows; no such checked addition is found there any more'})
+    # work whose amount the peer decides: reqwest's default redirect policy gives up after 10 hops, a custom policy has no limit
+    # unless it counts the hops itself (`attempt.previous().len()`)
+    for b in facts.bodies.values():
+        if b.crate not in ('bita', 'bitar') or b.generated:
+            continue
+        for bi, ct in b.calls():
+            if 'q' in ct['callee'] and callee_q(ct) in ('reqwest::redirect::Policy::custom',):
+                counted = False
+                for a in ct['args']:
+                    for d_ in (b.defs().get(a['pl']['l'], []) if a['k'] in ('copy', 'move') else []):
+                        if d_[0] == 'assign' and d_[1]['rv']['k'] == 'agg' and d_[1]['rv'].get('ak') == 'closure' and d_[1]['rv'].get('body') in facts.bodies:
+                            counted = any('q' in c2['callee'] and callee_q(c2).endswith('Attempt::previous') for _, c2 in facts.bodies[d_[1]['rv']['body']].calls())
+                instances.append({'rule': 'R-UNTRUSTED(peer-bounded-work)', 'function': b.q, 'at': ct['loc'], 'policy_counts_hops': counted})
+                if not counted:
+                    findings.append({'rule': 'R-UNTRUSTED', 'key': 'R-UNTRUSTED|%s|redirect-policy-unbounded' % b.q.split('::{closure')[0], 'function': b.q,
+                                     'what': 'the custom redirect policy installed at %s never looks at the number of hops taken: a server that keeps redirecting keeps the '
+                                             'command running (the default policy it replaces stops after 10)' % ct['loc']})
     # a reviewed entry that matches no site any more suppresses nothing; it is reported in the evidence, not as a violation
     # (the site may have been rewritten in a form the checker discharges by itself)
     stale = [k for k in reviewed if k not in used]
